@@ -20,6 +20,7 @@ import (
 	"context"
 	"fmt"
 	"reflect"
+	"strconv"
 	"strings"
 	"sync"
 	"sync/atomic"
@@ -64,10 +65,17 @@ type SessionWindow struct {
 	watermark *Watermark
 	// triggeredSessions stores sessions that have been triggered but are still open for late data (for EventTime with allowedLateness)
 	triggeredSessions map[string]*sessionInfo
+	// parkedSeq numbers sessions closed by a gap while waiting for delivery (guarded by mu)
+	parkedSeq uint64
 	// Performance statistics
 	sentCount    int64 // Number of successfully sent results
 	droppedCount int64 // Number of dropped results
 }
+
+// parkedSessionPrefix starts the map key of a session that was closed by a gap
+// but not yet delivered. escapeKeyPart never emits a backslash followed by 'P',
+// so it cannot collide with a group key.
+const parkedSessionPrefix = `\P`
 
 // sessionInfo stores information about a triggered session that is still open for late data
 type sessionInfo struct {
@@ -223,6 +231,22 @@ func (sw *SessionWindow) Add(data any) {
 			data:       []types.Row{},
 			lastActive: timestamp,
 			slot:       slot,
+		}
+		sw.sessionMap[key] = s
+	} else if timestamp.After(*s.slot.End) {
+		// The gap to the key's open session exceeds the timeout: that session is
+		// complete. Park it under a key no group value can produce, so the normal
+		// expiry delivers it once time/watermark passes its end, and start a new
+		// session for this key. Without this the split happened only if the expiry
+		// goroutine ran between the two events, i.e. it depended on the feed speed.
+		sw.parkedSeq++
+		sw.sessionMap[parkedSessionPrefix+strconv.FormatUint(sw.parkedSeq, 10)+groupKeySeparator+key] = s
+		start := timestamp
+		end := start.Add(sw.timeout)
+		s = &session{
+			data:       []types.Row{},
+			lastActive: timestamp,
+			slot:       types.NewTimeSlot(&start, &end),
 		}
 		sw.sessionMap[key] = s
 	} else {
